@@ -90,6 +90,13 @@ package fs
 //@   requires 0 <= b && b < 1<<41
 //@   ensures result == secs(b)
 
+// a directory grows by one record: the record starts the next sector when it does not fit into the current one
+//@ func sizeBytes.withRecord
+//@   tags C04,C08
+//@   requires 0 <= b && b < 1<<61 && 0 <= record && record <= 2048
+//@   ensures result == (b % 2048 + record > 2048 ? b + (2048 - b % 2048) + record : b + record) @def
+//@   ensures[C08] (result - record) % 2048 + record <= 2048 @the-record-ends-in-the-sector-where-it-begins
+//@   ensures b + record <= result && result <= b + 2 * record
 //@ func sizeSectors.bytes
 //@   tags C04,C09
 //@   ensures result == 2048 * s
@@ -310,6 +317,24 @@ package fs
 //@   ensures[C08] le32(inner(deref(enc)), base(deref(enc)) + n + 2) == de.ExtentLocation && be32(inner(deref(enc)), base(deref(enc)) + n + 6) == de.ExtentLocation @extent-location-both-endian
 //@   ensures[C08] le32(inner(deref(enc)), base(deref(enc)) + n + 10) == de.ExtentLength && be32(inner(deref(enc)), base(deref(enc)) + n + 14) == de.ExtentLength @data-length-both-endian
 //@   ensures[C08] raw(deref(enc), base(deref(enc)) + n + 25) == de.FileFlags && raw(deref(enc), base(deref(enc)) + n + 32) == len(de.Identifier) @flags-and-identifier-length
+
+// a record of a directory: written where the directory has arrived, or at the start of the next sector when it would
+// cross the sector border there (ECMA-119 6.8.1.1)
+//@ func iso9660encoder.appendDirectoryRecord
+//@   tags C04,C08
+//@   alloc (1<<62) * 4
+//@   requires e != nil
+//@   requires[C08] deSize(len(de.Identifier), len(de.SystemUse)) <= 255 @record-fits-its-length-byte
+//@   requires[C08] 0 <= de.ExtentLocation && 0 <= de.ExtentLength && de.ExtentLength <= 0xffffffff @extent-fits-32-bits
+//@   modifies deref(e)
+//@   let n = old(len(deref(e)))
+//@   let sz = deSize(len(de.Identifier), len(de.SystemUse))
+//@   let at0 = (n % 2048 + sz > 2048) ? n + (2048 - n % 2048) : n
+//@   ensures grown(e, at0 - n + sz)
+//@   ensures[C08] at0 % 2048 + sz <= 2048 @a-directory-record-ends-in-the-sector-where-it-begins
+//@   ensures[C08] forall x {raw(deref(e), x)} :: base(deref(e)) + n <= x && x < base(deref(e)) + at0 ==> raw(deref(e), x) == 0 @the-rest-of-the-sector-it-leaves-is-zero
+//@   ensures[C08] raw(deref(e), base(deref(e)) + at0) == sz @length-byte-is-the-record-size
+//@   ensures[C08] le32(inner(deref(e)), base(deref(e)) + at0 + 2) == de.ExtentLocation && le32(inner(deref(e)), base(deref(e)) + at0 + 10) == de.ExtentLength @extent-of-the-record
 
 //@ spec pteSize(idLen int) int = 8 + idLen + idLen % 2
 //@ func pathTableEntry.size
@@ -688,14 +713,14 @@ package fs
 //@   ensures err == nil && !joliet ==> item.dirEntryJoliet == old(item.dirEntryJoliet)
 //@   ensures[C08] err == nil && !joliet ==> entriesBounded(item.dirEntry, 0x20000000, 0x30000001) @iso-locations-before-relocation
 //@   ensures[C08] err == nil && joliet ==> entriesBounded(item.dirEntryJoliet, 0x20000000, 0x30000001) @joliet-locations-before-relocation
-//@   loop 1 invariant (!joliet ==> len(item.dirEntry) >= 2 && entriesOK(item.dirEntry) && len(item.dirEntry) <= 2 + 513 * $idx && 0 <= totalSizeBytes && totalSizeBytes <= 255 * len(item.dirEntry) && fresh(item.dirEntry.$arr) && entriesBounded(item.dirEntry, 0x20000000, 0x30000001) && dotFirst(item.dirEntry) && item.dirEntryJoliet == old(item.dirEntryJoliet)) && (joliet ==> len(item.dirEntryJoliet) >= 2 && entriesOK(item.dirEntryJoliet) && len(item.dirEntryJoliet) <= 2 + 513 * $idx && 0 <= totalSizeBytes && totalSizeBytes <= 255 * len(item.dirEntryJoliet) && fresh(item.dirEntryJoliet.$arr) && entriesBounded(item.dirEntryJoliet, 0x20000000, 0x30000001) && dotFirst(item.dirEntryJoliet) && item.dirEntry == pre(item.dirEntry) && item.dirEntry.$arr != item.dirEntryJoliet.$arr && builtBefore(viso.rootDir, end(viso.rootDir), false)) @own-records
+//@   loop 1 invariant (!joliet ==> len(item.dirEntry) >= 2 && entriesOK(item.dirEntry) && len(item.dirEntry) <= 2 + 513 * $idx && 0 <= totalSizeBytes && totalSizeBytes <= 510 * len(item.dirEntry) && fresh(item.dirEntry.$arr) && entriesBounded(item.dirEntry, 0x20000000, 0x30000001) && dotFirst(item.dirEntry) && item.dirEntryJoliet == old(item.dirEntryJoliet)) && (joliet ==> len(item.dirEntryJoliet) >= 2 && entriesOK(item.dirEntryJoliet) && len(item.dirEntryJoliet) <= 2 + 513 * $idx && 0 <= totalSizeBytes && totalSizeBytes <= 510 * len(item.dirEntryJoliet) && fresh(item.dirEntryJoliet.$arr) && entriesBounded(item.dirEntryJoliet, 0x20000000, 0x30000001) && dotFirst(item.dirEntryJoliet) && item.dirEntry == pre(item.dirEntry) && item.dirEntry.$arr != item.dirEntryJoliet.$arr && builtBefore(viso.rootDir, end(viso.rootDir), false)) @own-records
 //@   loop 1 invariant (forall y {at(viso.rootDir, y).dirEntry.$len} {at(viso.rootDir, y).dirEntryJoliet.$len} {at(viso.rootDir, y).dirEntry.$arr} {at(viso.rootDir, y).dirEntryJoliet.$arr} :: base(viso.rootDir) <= y && y < end(viso.rootDir) && y != pidx(item) ==> at(viso.rootDir, y).dirEntry == old(at(viso.rootDir, y).dirEntry) && at(viso.rootDir, y).dirEntryJoliet == old(at(viso.rootDir, y).dirEntryJoliet) && at(viso.rootDir, y).dirEntry.$arr != (joliet ? item.dirEntryJoliet.$arr : item.dirEntry.$arr) && at(viso.rootDir, y).dirEntryJoliet.$arr != (joliet ? item.dirEntryJoliet.$arr : item.dirEntry.$arr)) @other-directories-keep-their-slices
 //@   loop 1 invariant builtBefore(viso.rootDir, pidx(item), joliet) @earlier-directories-still-built
-//@   loop 2 invariant (!joliet ==> len(item.dirEntry) >= 2 && entriesOK(item.dirEntry) && len(item.dirEntry) <= pre(len(item.dirEntry)) + i && 0 <= totalSizeBytes && totalSizeBytes <= 255 * len(item.dirEntry) && fresh(item.dirEntry.$arr) && entriesBounded(item.dirEntry, 0x20000000, 0x30000001) && dotFirst(item.dirEntry) && item.dirEntryJoliet == old(item.dirEntryJoliet)) && (joliet ==> len(item.dirEntryJoliet) >= 2 && entriesOK(item.dirEntryJoliet) && len(item.dirEntryJoliet) <= pre(len(item.dirEntryJoliet)) + i && 0 <= totalSizeBytes && totalSizeBytes <= 255 * len(item.dirEntryJoliet) && fresh(item.dirEntryJoliet.$arr) && entriesBounded(item.dirEntryJoliet, 0x20000000, 0x30000001) && dotFirst(item.dirEntryJoliet) && item.dirEntry == pre(item.dirEntry) && item.dirEntry.$arr != item.dirEntryJoliet.$arr && builtBefore(viso.rootDir, end(viso.rootDir), false)) @own-records
+//@   loop 2 invariant (!joliet ==> len(item.dirEntry) >= 2 && entriesOK(item.dirEntry) && len(item.dirEntry) <= pre(len(item.dirEntry)) + i && 0 <= totalSizeBytes && totalSizeBytes <= 510 * len(item.dirEntry) && fresh(item.dirEntry.$arr) && entriesBounded(item.dirEntry, 0x20000000, 0x30000001) && dotFirst(item.dirEntry) && item.dirEntryJoliet == old(item.dirEntryJoliet)) && (joliet ==> len(item.dirEntryJoliet) >= 2 && entriesOK(item.dirEntryJoliet) && len(item.dirEntryJoliet) <= pre(len(item.dirEntryJoliet)) + i && 0 <= totalSizeBytes && totalSizeBytes <= 510 * len(item.dirEntryJoliet) && fresh(item.dirEntryJoliet.$arr) && entriesBounded(item.dirEntryJoliet, 0x20000000, 0x30000001) && dotFirst(item.dirEntryJoliet) && item.dirEntry == pre(item.dirEntry) && item.dirEntry.$arr != item.dirEntryJoliet.$arr && builtBefore(viso.rootDir, end(viso.rootDir), false)) @own-records
 //@   loop 2 invariant (forall y {at(viso.rootDir, y).dirEntry.$len} {at(viso.rootDir, y).dirEntryJoliet.$len} {at(viso.rootDir, y).dirEntry.$arr} {at(viso.rootDir, y).dirEntryJoliet.$arr} :: base(viso.rootDir) <= y && y < end(viso.rootDir) && y != pidx(item) ==> at(viso.rootDir, y).dirEntry == old(at(viso.rootDir, y).dirEntry) && at(viso.rootDir, y).dirEntryJoliet == old(at(viso.rootDir, y).dirEntryJoliet) && at(viso.rootDir, y).dirEntry.$arr != (joliet ? item.dirEntryJoliet.$arr : item.dirEntry.$arr) && at(viso.rootDir, y).dirEntryJoliet.$arr != (joliet ? item.dirEntryJoliet.$arr : item.dirEntry.$arr)) @other-directories-keep-their-slices
 //@   loop 2 invariant builtBefore(viso.rootDir, pidx(item), joliet) @earlier-directories-still-built
 //@   loop 2 invariant 0 <= i && i <= parts && 1 <= parts && parts <= 513 && (parts > 1 ==> (parts - 1) * 4294965248 <= fileItem.size && fileItem.size <= parts * 4294965248) && (parts == 1 ==> fileItem.size <= 4294967295) && (i <= parts - 1 ==> lba == fileItem.rLBA + i * 2097151) @extent-arithmetic
-//@   loop 3 invariant (!joliet ==> len(item.dirEntry) >= 2 && entriesOK(item.dirEntry) && len(item.dirEntry) <= 2 + 513 * len(item.files) + $idx && 0 <= totalSizeBytes && totalSizeBytes <= 255 * len(item.dirEntry) && fresh(item.dirEntry.$arr) && entriesBounded(item.dirEntry, 0x20000000, 0x30000001) && dotFirst(item.dirEntry) && item.dirEntryJoliet == old(item.dirEntryJoliet)) && (joliet ==> len(item.dirEntryJoliet) >= 2 && entriesOK(item.dirEntryJoliet) && len(item.dirEntryJoliet) <= 2 + 513 * len(item.files) + $idx && 0 <= totalSizeBytes && totalSizeBytes <= 255 * len(item.dirEntryJoliet) && fresh(item.dirEntryJoliet.$arr) && entriesBounded(item.dirEntryJoliet, 0x20000000, 0x30000001) && dotFirst(item.dirEntryJoliet) && item.dirEntry == pre(item.dirEntry) && item.dirEntry.$arr != item.dirEntryJoliet.$arr && builtBefore(viso.rootDir, end(viso.rootDir), false)) @own-records
+//@   loop 3 invariant (!joliet ==> len(item.dirEntry) >= 2 && entriesOK(item.dirEntry) && len(item.dirEntry) <= 2 + 513 * len(item.files) + $idx && 0 <= totalSizeBytes && totalSizeBytes <= 510 * len(item.dirEntry) && fresh(item.dirEntry.$arr) && entriesBounded(item.dirEntry, 0x20000000, 0x30000001) && dotFirst(item.dirEntry) && item.dirEntryJoliet == old(item.dirEntryJoliet)) && (joliet ==> len(item.dirEntryJoliet) >= 2 && entriesOK(item.dirEntryJoliet) && len(item.dirEntryJoliet) <= 2 + 513 * len(item.files) + $idx && 0 <= totalSizeBytes && totalSizeBytes <= 510 * len(item.dirEntryJoliet) && fresh(item.dirEntryJoliet.$arr) && entriesBounded(item.dirEntryJoliet, 0x20000000, 0x30000001) && dotFirst(item.dirEntryJoliet) && item.dirEntry == pre(item.dirEntry) && item.dirEntry.$arr != item.dirEntryJoliet.$arr && builtBefore(viso.rootDir, end(viso.rootDir), false)) @own-records
 //@   loop 3 invariant (forall y {at(viso.rootDir, y).dirEntry.$len} {at(viso.rootDir, y).dirEntryJoliet.$len} {at(viso.rootDir, y).dirEntry.$arr} {at(viso.rootDir, y).dirEntryJoliet.$arr} :: base(viso.rootDir) <= y && y < end(viso.rootDir) && y != pidx(item) ==> at(viso.rootDir, y).dirEntry == old(at(viso.rootDir, y).dirEntry) && at(viso.rootDir, y).dirEntryJoliet == old(at(viso.rootDir, y).dirEntryJoliet) && at(viso.rootDir, y).dirEntry.$arr != (joliet ? item.dirEntryJoliet.$arr : item.dirEntry.$arr) && at(viso.rootDir, y).dirEntryJoliet.$arr != (joliet ? item.dirEntryJoliet.$arr : item.dirEntry.$arr)) @other-directories-keep-their-slices
 //@   loop 3 invariant builtBefore(viso.rootDir, pidx(item), joliet) @earlier-directories-still-built
 //@   loop 1 invariant ((joliet || pidx(item) != base(viso.rootDir)) && pre(len(at(viso.rootDir, base(viso.rootDir)).dirEntry)) >= 1 ==> at(at(viso.rootDir, base(viso.rootDir)).dirEntry, base(at(viso.rootDir, base(viso.rootDir)).dirEntry)).ExtentLocation == pre(at(at(viso.rootDir, base(viso.rootDir)).dirEntry, base(at(viso.rootDir, base(viso.rootDir)).dirEntry)).ExtentLocation) && at(at(viso.rootDir, base(viso.rootDir)).dirEntry, base(at(viso.rootDir, base(viso.rootDir)).dirEntry)).FileFlags == pre(at(at(viso.rootDir, base(viso.rootDir)).dirEntry, base(at(viso.rootDir, base(viso.rootDir)).dirEntry)).FileFlags)) && (joliet && pidx(item) != base(viso.rootDir) ==> at(at(viso.rootDir, base(viso.rootDir)).dirEntryJoliet, base(at(viso.rootDir, base(viso.rootDir)).dirEntryJoliet)).ExtentLocation == pre(at(at(viso.rootDir, base(viso.rootDir)).dirEntryJoliet, base(at(viso.rootDir, base(viso.rootDir)).dirEntryJoliet)).ExtentLocation) && at(at(viso.rootDir, base(viso.rootDir)).dirEntryJoliet, base(at(viso.rootDir, base(viso.rootDir)).dirEntryJoliet)).FileFlags == pre(at(at(viso.rootDir, base(viso.rootDir)).dirEntryJoliet, base(at(viso.rootDir, base(viso.rootDir)).dirEntryJoliet)).FileFlags)) @root-records-kept
@@ -805,14 +830,21 @@ package fs
 //@   ensures[C13] forall g {fopen[g]} :: fopen[g] ==> old(fopen[g]) @directories-closed-again
 //@   ensures[C08] err == nil ==> built(viso) @volume-structure
 
-// PARAM.SFO parsing: no content of the file can make it panic; the value it returns is not specified here.
+// PARAM.SFO parsing: no content of the file can make it panic, and the value returned is the one an index entry
+// announces: DataLen-1 bytes (the terminator dropped; nothing for DataLen 0) at DataTableStart+DataOffset. Which
+// entry (the one whose key is the field name) is not stated: the key text goes through bufio, whose contract says
+// nothing about content.
+//@ spec sfoCount(c []int) int = le32(c, 16)
+//@ spec sfoDataLen(c []int, j int) int = le32(c, 24 + 16 * j)
+//@ spec sfoDataAt(c []int, j int) int = le32(c, 12) + le32(c, 32 + 16 * j)
 //@ func sfoField results(v, err)
-//@   tags C04
+//@   tags C04,C08
 //@   wrapok hdr.KeyTableStart+uint32(e.KeyOffset)
-//@   requires f != nil
+//@   requires f != nil && fpos[f] == 0
 //@   modifies fpos, iofaults
 //@   ensures iofaults >= old(iofaults) && fsw == old(fsw)
-//@   loop 1 invariant iofaults >= old(iofaults) && fsw == old(fsw)
+//@   ensures[C08] err == nil ==> exists j :: 0 <= j && j < sfoCount(fcontent[f]) && len(v) == max(sfoDataLen(fcontent[f], j) - 1, 0) && (forall q {v[q]} :: 0 <= q && q < len(v) ==> v[q] == fcontent[f][sfoDataAt(fcontent[f], j) + q]) @the-value-an-index-entry-announces
+//@   loop 1 invariant iofaults >= old(iofaults) && fsw == old(fsw) && idxEntry == nil && hdr.DataTableStart == le32(fcontent[f], 12) && hdr.TableEntriesCount == le32(fcontent[f], 16)
 
 //@ func VirtualISO.getTitleID results(id, err)
 //@   tags C04,C13,C01
